@@ -462,6 +462,13 @@ func (p *parser) typeText() string {
 	if t.k != tIdent {
 		p.fail("expected type name")
 	}
+	if t.s == "map" && p.isOp("[") {
+		p.next()
+		k := p.typeText()
+		p.expect("]")
+		v := p.typeText()
+		return s + "map[" + k + "]" + v
+	}
 	s += t.s
 	if p.isOp(".") && p.toks[p.p+1].k == tIdent {
 		p.next()
